@@ -541,7 +541,7 @@ func (c *execCtx) nested() *execCtx {
 	n := c.child()
 	if c.txn != nil {
 		c.txn.cid++
-		n.snap = snapshot{txn: c.txn, cid: c.txn.cid}
+		n.snap = c.txn.snapAt(c.txn.cid)
 	}
 	return n
 }
